@@ -17,7 +17,18 @@ Case grammar (one line = one table + a list of operations; P/X change the object
       A a b c   Integrate(a,b), Integrate(b,c), Integrate(a,c)
       B a b     Integrate(a,b), Local_Minimum(a,b), Local_Maximum(a,b)
       U a x d   Integrate(a,x+d), Integrate(a,x-d), Interpolate(x), Derivative(x,2)
- op2: P c | X c | I x y | g | G | Z n   ((n+1)^2 grid of the whole domain)"""
+ op2: P c | X c | I x y | g | G | Z n   ((n+1)^2 grid of the whole domain)
+ Several objects in one program (value semantics of the classes; model: the store of C08_Model.v):
+  s1 | r1 <ntab> { L <x_dim> <f_dim> <list xs> <list ys> | R <x_dim> <f_dim> <table rows> }* <nslots> <nops> sop*     (r1: queries on the live objects)
+  s2 | r2 <ntab> { <x_dim> <y_dim> <f_dim> <list xs> <list ys> <table f> }* <nslots> <nops> sop*
+ sop: mk k t | mn k t    slot k = Obj(table t), assigned in place / after destroying the old object
+      cp k j | cc k j    copy assignment (construction into an empty slot) / copy construction of a new object
+      val k j | vec k j n   a copy through a by-value parameter / copied out of a std::vector of n copies that is then destroyed
+      mv k j | rm k | sw k j   move (the source is left moved-from), destruction, std::swap
+      at k                the slot the following op / op2 address
+ Long tables given by rule (rule_table below): b1 | k1 <x_dim> <f_dim> <N> <s0> <xk> <X0> <jit> <ykind> <p1> <p2> <ym> <nops> op*
+  (b1: one copy of the object per operation, k1: the live object), with the additional
+      W a b     Integrate(a,b), Integrate(b,a), 3-point Gauss sum of Interpolate over every piece of [a,b] between knots"""
 import math, sys
 from vcheck import Case, hx, flist
 import C01
@@ -27,7 +38,7 @@ PID = "C08"
 DRIVER = "C08"
 MODEL_DEPS = ["C01_Model.v"]
 TOL = (1e-12, 1e-300)
-RULE = ("a case = one table with its list of operations; non-trivial = a 1-D case containing an extremum query whose limits span >= 3 segments with "
+RULE = ("a case = one table (or one program with several objects made from a few tables) with its list of operations; non-trivial = a 1-D case containing an extremum query whose limits span >= 3 segments with "
         "the reported extremum taken at an interior knot, or any query made under a negative prefactor; distinct by case text")
 LEVEL_TEXT = ("Theorems (Coq, over the reals, every valid table N >= 3, every prefactor c of either sign reached by any sequence of Set_Prefactor/Multiply): "
               "for limits inside the tabulated domain Integrate(x1,x2) is the Riemann integral (Coquelicot RInt) of c*curve, hence additive, antisymmetric, bounded by "
@@ -35,12 +46,16 @@ LEVEL_TEXT = ("Theorems (Coq, over the reals, every valid table N >= 3, every pr
               "c*curve on [x1,x2] and are attained there; Global_Minimum/Maximum likewise on the whole domain (1-D) and on every cell of the grid (2-D); all scale "
               "with the prefactor as Interpolate does; the default-constructed objects are proved to be such objects of a valid all-zero table. The same Gallina terms are extracted and run against the C++ classes on every run, and every clause is "
               "evaluated on the implementation's output (S4: exact reference for the extrema, Gauss quadrature for the integrals, dense sampling). "
+              "Programs with several objects: the classes have value semantics, modelled by a store of objects (lstep); theorems: a copy (copy construction / assignment, by-value parameter, vector element) or a moved object keeps the table and prefactor of its source through every later operation on other objects, re-assignment or destruction of the source included; that the C++ objects behave like this store is tied by correspondence and S4 (sessions). "
+              "Long tables: the loops of Integrate and Local_Minimum/Maximum can be cut after any number of steps and resumed with the running value (theorems, any NumOps instance); tables of 10^3..10^5 points are run through the extracted functions window by window. "
               "Not a theorem: the objects made by the data-table constructors (model by specification, tied by correspondence and S4 only); limits in the 1 % extrapolation zone outside the table (the cubic need not be monotone there; probed by S4 only); floating-point rounding.")
 LEVEL_NOTE = ("Coq 8.16.1 kernel; theorems over R use the standard library's real-number axioms and Coquelicot; hand-written model tied by differential "
               "correspondence (extraction with ExtrOcamlBasic only); std::min_element/max_element modelled as first smallest / first largest by a fold")
 TRUSTED = ["std::min_element / std::max_element are modelled by a left fold keeping the first smallest / largest element",
            "std::pow with exponents 2.0, 3.0, 4.0 is modelled by npowi (powerRZ on R; x*x resp. libm pow on doubles, as g++ -O1 compiles it)",
            "std::sort / std::unique in the 2-D data-table constructor are modelled by specification (insertion sort; first element of every run of equal values); no NaN or -0.0 among the abscissae",
+           "long tables (b1, k1): the driver evaluates the extracted construct / locate / interpolate / integrate_loop / knot_scan on windows of 12 segments plus two tabulated points on either side (the Steffen coefficients of a segment depend on those points only) and threads the running sum / extremum from window to window; the choice of the window is a plain binary search in the driver",
+           "several objects (s1, r1, s2, r2): the driver maps construction, copy, move, destruction and swap of the C++ objects to the operations LPut, LCopy, LMove, LDrop, LSwap of the store model",
            "the model answers every query from the search state of a fresh object (the search state machine is property C09); the harness asks copies (t1, d1, t0, t2, d2, z2) or the one live object (h1, e1, h0, h2)"]
 ASSUMPTIONS = ["extremum and integral theorems assume limits inside [x_0, x_{N-1}]; the 1 % extrapolation zone is covered by correspondence and S4 only"]
 
@@ -243,6 +258,179 @@ def line2(rng, xd, yd, fd, xs, ys, f, ops):
     return f"{op} {hx(xd)} {hx(yd)} {hx(fd)} {flist(xs)} {flist(ys)} {len(f)} " + " ".join(flist(q) for q in f) + f" {len(ops)} " + " ".join(ops), "ctor:lists" + ("-history" if op == "h2" else "")
 
 
+# ---- long tables by rule: integers scaled by powers of two (the harness and the model driver build the same doubles from the same integers)
+_RT = {}
+
+
+def rule_table(N, s0, xk, X0, jit, yk, p1, p2, ym):
+    key = (N, s0, xk, X0, jit, yk, p1, p2, ym)
+    if key in _RT: return _RT[key]
+    st = [s0]
+    def nxt():
+        st[0] = (st[0] * 1103515245 + 12345) & 0x7fffffff
+        return st[0] >> 16
+    ux = 2.0 ** xk; uy = 2.0 ** ym
+    xs = [float(X0 + 8 * i + (nxt() % 7 if jit else 0)) * ux for i in range(N)]
+    ys = []; Y = p1
+    for i in range(N):
+        if yk == 0: v = p1
+        elif yk == 1: v = p1 + p2 * i
+        elif yk == 2: v = p1 + nxt() % (2 * p2 + 1) - p2
+        elif yk == 3:
+            if i > 0: Y += nxt() % (2 * p2 + 1) - p2
+            v = Y
+        elif yk == 4: v = p1 + p2 * ((i % 16) if i % 16 < 8 else 16 - (i % 16))
+        else: v = p1 + (1000 if i == p2 else 0)
+        ys.append(float(v) * uy)
+    if len(_RT) > 6: _RT.clear()
+    _RT[key] = (xs, ys)
+    return xs, ys
+
+
+SIZE_LADDER = [2 ** p + e for p in range(10, 19) for e in (-1, 0, 1, 2, 3)]
+
+
+def big_case(rng, N):
+    """a table of N points by rule, queried on long spans: the whole domain, spans of 2^p + {-1..2} segments, splits next to 2^p segments"""
+    s0 = rng.randrange(1, 2 ** 31); xk = rng.choice([-3, -3, -6, -10, 0, 4])
+    X0 = rng.choice([0, 0, -4 * N, -8 * (N - 1), 2 ** 24, -2 ** 26, 8 * rng.randrange(1, 1000)])
+    jit = 1 if rng.random() < 0.7 else 0
+    yk = rng.choice([0, 0, 1, 2, 2, 3, 3, 4, 5])
+    if yk == 0: p1, p2 = rng.choice([-1, 1]) * rng.randint(1, 1000), 0
+    elif yk == 1: p1, p2 = rng.randint(-1000, 1000), rng.choice([1, -1, 3])
+    elif yk == 2: p1, p2 = rng.randint(-100, 100), rng.randint(1, 50)
+    elif yk == 3: p1, p2 = rng.randint(-100, 100), rng.randint(1, 8)
+    elif yk == 4: p1, p2 = rng.randint(-20, 20), rng.choice([-1, 1]) * rng.randint(1, 5)
+    else: p1, p2 = rng.randint(-3, 3), rng.randrange(N)
+    ym = rng.choice([-4, 0, -20, 10])
+    r = rng.random()
+    xd, fd = (-1.0, -1.0) if r < 0.6 else ((2.0 ** rng.randint(-20, 20), -1.0) if r < 0.75 else ((-1.0, 10 ** rng.uniform(-6, 6)) if r < 0.9 else (10 ** rng.uniform(-3, 3), 10 ** rng.uniform(-6, 6))))
+    xs0, _ys0 = rule_table(N, s0, xk, X0, jit, yk, p1, p2, ym); xs = scaled(xd, xs0)
+    def pt(i, knot=None):    # a limit in / at the left end of segment i
+        i = max(0, min(N - 2, i))
+        if knot is None: knot = rng.random() < 0.5
+        return xs[i] if knot else inside(rng, xs, i)
+    ops = pref_ops(rng)
+    spans = [(0, N - 2)]
+    lad = [L for L in SIZE_LADDER if L <= N - 2]
+    for L in rng.sample(lad, min(len(lad), 3)) + ([max(lad)] if lad else []):
+        i = rng.randrange(0, N - 1 - L); spans.append((i, i + L))
+    i = rng.randrange(0, N - 2); spans.append((i, rng.randrange(i, N - 1)))
+    for (i, k) in spans:
+        a = pt(i); b = xs[-1] if (k >= N - 2 and rng.random() < 0.5) else pt(k)
+        if a > b: a, b = b, a
+        # a split point: in the middle, or 2^p + {-1, 0, 1} segments away from one end
+        cand = [i + L for L in SIZE_LADDER if i + L < k] + [k - L for L in SIZE_LADDER if k - L > i]
+        m = pt(rng.choice(cand)) if cand and rng.random() < 0.7 else pt(rng.randint(i, k))
+        m = min(max(m, a), b)
+        r = rng.random()
+        if r < 0.35: ops += [f"A {hx(a)} {hx(m)} {hx(b)}", f"B {hx(a)} {hx(b)}"]
+        elif r < 0.6: ops += [rng.choice([f"W {hx(a)} {hx(b)}", f"W {hx(b)} {hx(a)}"]), f"A {hx(b)} {hx(a)} {hx(m)}"]
+        elif r < 0.8: ops += [f"E {hx(a)} {hx(b)} {NS}", f"A {hx(a)} {hx(m)} {hx(b)}"]
+        else: ops += [f"N {hx(a)} {hx(b)}", f"N {hx(a)} {hx(m)}", f"N {hx(m)} {hx(b)}", f"m {hx(a)} {hx(b)}", f"M {hx(a)} {hx(b)}"]
+        if rng.random() < 0.3: ops += pref_ops(rng, True)
+    j = rng.randrange(N - 1); h = xs[j + 1] - xs[j]
+    ops += [f"Z {NS}", "g", "G", f"U {hx(xs[max(0, j - 1)])} {hx(xs[j] + h * rng.uniform(0.3, 0.7))} {hx(h / 16.0)}", f"I {hx(inside(rng, xs, j))}"]
+    op = "k1" if rng.random() < 0.3 else "b1"
+    line = f"{op} {hx(xd)} {hx(fd)} {N} {s0} {xk} {X0} {jit} {yk} {p1} {p2} {ym} {len(ops)} " + " ".join(ops)
+    return Case(line, ("1d", "long-table", "N>2^%d" % (N.bit_length() - 1), "history" if op == "k1" else "fresh", "ykind:%d" % yk))
+
+
+# ---- several objects in one program
+def life_ops(rng, ntab, nslots, same_len, query):
+    """a legal history of constructions, copies, moves, swaps and destructions over nslots slots; query(k, t) = the operations asked of the
+    live slot k holding table t.  Copies are followed, more often than not, by a change of their source before the copy is asked."""
+    st = [None] * nslots      # None: no object, -1: moved-from, t >= 0: holds table t
+    ops = []
+    def live(): return [k for k in range(nslots) if st[k] is not None and st[k] >= 0]
+    def ask(k): ops.append(f"at {k}"); ops.extend(query(k, st[k]))
+    def change(j):
+        """the slot j receives another table, is moved away or destroyed"""
+        others = [t for t in range(ntab) if t != st[j]]; lv = [k for k in live() if k != j]
+        r = rng.random()
+        if r < 0.3 and others: t = rng.choice(others); ops.append(f"{rng.choice(['mk', 'mk', 'mn'])} {j} {t}"); st[j] = t
+        elif r < 0.55 and lv: i = rng.choice(lv); ops.append(f"cp {j} {i}"); st[j] = st[i]
+        elif r < 0.7 and lv: i = rng.choice(lv); ops.append(f"sw {j} {i}"); st[j], st[i] = st[i], st[j]
+        elif r < 0.85: ops.append(f"rm {j}"); st[j] = None
+        else:
+            k = rng.choice([k for k in range(nslots) if k != j]); ops.append(f"mv {k} {j}"); st[k] = st[j]; st[j] = -1
+    ops.append(f"mk 0 {rng.randrange(ntab)}"); st[0] = int(ops[-1].split()[2])
+    if rng.random() < 0.7: ask(0)
+    for _ in range(rng.choice([4, 6, 9])):
+        lv = live(); r = rng.random()
+        if not lv or r < 0.2:
+            k = rng.randrange(nslots); t = rng.randrange(ntab); ops.append(f"{rng.choice(['mk', 'mn'])} {k} {t}"); st[k] = t
+            if rng.random() < 0.5: ask(k)
+        elif r < 0.75:
+            j = rng.choice(lv); k = rng.choice([k for k in range(nslots) if k != j] + ([j] if rng.random() < 0.1 else []))
+            w = rng.choice(["cp", "cp", "cc", "cc", "val", "vec"])
+            ops.append(f"{w} {k} {j}" + (f" {rng.choice([1, 2, 3, 5, 9])}" if w == "vec" else "")); st[k] = st[j]
+            if rng.random() < 0.25: ask(k)
+            if k != j and rng.random() < 0.75:
+                change(j)
+                if rng.random() < 0.4 and st[j] is not None and st[j] >= 0: ask(j)
+            if st[k] is not None and st[k] >= 0: ask(k)
+        elif r < 0.85 and len(lv) >= 2:
+            k, j = rng.sample(lv, 2); ops.append(f"sw {k} {j}"); st[k], st[j] = st[j], st[k]; ask(rng.choice([k, j]))
+        elif r < 0.93:
+            j = rng.choice(lv); k = rng.choice([k for k in range(nslots) if k != j]); ops.append(f"mv {k} {j}"); st[k] = st[j]; st[j] = -1; ask(k)
+        else:
+            if len(lv) >= 2: j = rng.choice(lv); ops.append(f"rm {j}"); st[j] = None
+            ask(rng.choice(live()))
+    for k in live():
+        if rng.random() < 0.6: ask(k)
+    return ops
+
+
+def session_1d(rng, big):
+    ntab = rng.choice([2, 3, 3, 4]); nslots = rng.choice([2, 3, 4]); same = rng.random() < 0.6
+    N = rng.choice([3, 4, 5, 7, 9, 16, 33]); xs, xm = C01.gen_xs(rng, N); xd, fd = C01.pick_dims(rng)
+    tabs = []
+    for t in range(ntab):
+        if not same and t > 0:
+            N = rng.choice([3, 4, 5, 7, 9, 16, 33]); xs, xm = C01.gen_xs(rng, N)
+            if rng.random() < 0.5: xd, fd = C01.pick_dims(rng)
+        ys, ym = C01.gen_ys(rng, N, xs, rng.choice(["smooth", "random", "monotone", "plateau", "signchange", "zeros", "steps", "convex"]))
+        if rng.random() < 0.3: ys, _k2 = reshape_values(rng, ys)
+        tabs.append((rng.choice(["L", "L", "R"]), xd, fd, list(xs), ys))
+    def query(k, t):
+        sx = scaled(tabs[t][1], tabs[t][3]); ops = pref_ops(rng) if rng.random() < 0.6 else []
+        r = rng.random()
+        if r < 0.5: ops += [f"Z {rng.choice([4, 8])}"]
+        elif r < 0.7: ops += ["g", "G"]
+        ops += query_ops(rng, sx, rng.choice([0, 1, 2]))
+        if not ops: ops = ["g", "G"]
+        return ops
+    ops = life_ops(rng, ntab, nslots, same, query)
+    head = " ".join(f"L {hx(a)} {hx(b)} {flist(x)} {flist(y)}" if kd == "L" else f"R {hx(a)} {hx(b)} {ftable([[u, v] for u, v in zip(x, y)])}" for kd, a, b, x, y in tabs)
+    op = "r1" if rng.random() < 0.4 else "s1"
+    return Case(f"{op} {ntab} {head} {nslots} {len(ops)} " + " ".join(ops), ("1d", "session", "history" if op == "r1" else "fresh", "same-grid" if same else "mixed-grids"))
+
+
+def session_2d(rng, big):
+    ntab = rng.choice([2, 3]); nslots = rng.choice([2, 3]); same = rng.random() < 0.6
+    Nx, Ny = rng.choice([2, 3, 5]), rng.choice([2, 4, 6]); xs, _m = C01.gen_xs(rng, Nx); ys, _m = C01.gen_xs(rng, Ny)
+    tabs = []
+    for t in range(ntab):
+        if not same and t > 0:
+            Nx, Ny = rng.choice([2, 3, 5]), rng.choice([2, 4, 6]); xs, _m = C01.gen_xs(rng, Nx); ys, _m = C01.gen_xs(rng, Ny)
+        sc = 10 ** rng.uniform(-6, 6); off = rng.choice([0.0, 0.0, 3 * sc, -3 * sc])
+        f = [[off + sc * rng.gauss(0, 1) for _y in ys] for _x in xs]
+        xd, yd, fd = [(-1.0 if rng.random() < 0.7 else 10 ** rng.uniform(-4, 4)) for _k in range(3)]
+        tabs.append((xd, yd, fd, list(xs), list(ys), f))
+    def query(k, t):
+        xd, yd, fd, x0, y0, f = tabs[t]; sx, sy = scaled(xd, x0), scaled(yd, y0)
+        ops = pref_ops(rng) if rng.random() < 0.6 else []
+        ops += [f"Z {rng.choice([2, 4])}"] if rng.random() < 0.6 else ["g", "G"]
+        x = sx[0] + (sx[-1] - sx[0]) * rng.random(); y = sy[0] + (sy[-1] - sy[0]) * rng.random()
+        if sx[0] <= x <= sx[-1] and sy[0] <= y <= sy[-1]: ops.append(f"I {hx(x)} {hx(y)}")
+        return ops
+    ops = life_ops(rng, ntab, nslots, same, query)
+    head = " ".join(f"{hx(a)} {hx(b)} {hx(c)} {flist(x)} {flist(y)} {len(f)} " + " ".join(flist(q) for q in f) for a, b, c, x, y, f in tabs)
+    op = "r2" if rng.random() < 0.4 else "s2"
+    return Case(f"{op} {ntab} {head} {nslots} {len(ops)} " + " ".join(ops), ("2d", "session", "history" if op == "r2" else "fresh"))
+
+
 def generate(rng, tier):
     big = tier != "quick"; cs = []
     for _ in range(5000 if big else 360):
@@ -358,13 +546,98 @@ def generate(rng, tier):
         else:
             if kind == "dup" and len(set((a, b) for a, b, _c in rows)) == len(rows): continue
             cs.append(Case(f"d2 {hx(-1.0)} {hx(-1.0)} {hx(-1.0)} {ftable(rows)} 2 g G", ("2d", "guards", "table:" + kind)))
+    # several objects in one program: constructions, copies, moves, swaps, destructions between the queries
+    for _ in range(2500 if big else 150): cs.append(session_1d(rng, big))
+    for _ in range(600 if big else 40): cs.append(session_2d(rng, big))
+    # long tables: a size ladder across the powers of two up to 2^17 (2^18 in the thorough tier); every run has tables beyond 2^16 and 2^17 points
+    if big: sizes = [rng.choice(SIZE_LADDER) + rng.choice([0, 0, 1, 2, 7, 100]) for _ in range(10)] + [65536 + rng.randint(3, 6000) for _ in range(3)] + [131072 + rng.randint(3, 9000) for _ in range(2)] + [262144 + rng.randint(3, 9000)]
+    else: sizes = [rng.choice([1025, 4098, 16387, 32770]), 65536 + rng.randint(3, 6000), 131072 + rng.randint(3, 9000)]
+    for N in sizes: cs.append(big_case(rng, N))
     return cs
 
 
 # ----------------------------------------------------------------------------------------------- parsing
+LIFE = {"at": 1, "mk": 2, "mn": 2, "cp": 2, "cc": 2, "val": 2, "vec": 3, "mv": 2, "rm": 1, "sw": 2}
+_PC = {}
+
+
 def parse_case(line):
+    d = _PC.get(line)
+    if d is None:
+        d = _parse_case(line)
+        if len(_PC) > 8: _PC.clear()
+        _PC[line] = d
+    return d
+
+
+def read_ops(r, n, two_d):
+    ops = []
+    for _ in range(n):
+        q = r.word()
+        if q in LIFE: ops.append((q,) + tuple(r.integer() for _k in range(LIFE[q])))
+        elif q in ("P", "X"): ops.append((q, r.num()))
+        elif q == "I": ops.append((q, r.num()) if not two_d else (q, r.num(), r.num()))
+        elif q == "D": ops.append((q, r.integer(), r.num()))
+        elif q in ("N", "m", "M", "Q", "B", "W"): ops.append((q, r.num(), r.num()))
+        elif q in ("g", "G"): ops.append((q,))
+        elif q == "E": ops.append((q, r.num(), r.num(), r.integer()))
+        elif q == "Z": ops.append((q, r.integer()))
+        elif q in ("A", "U"): ops.append((q, r.num(), r.num(), r.num()))
+    return ops
+
+
+class LongAux:
+    """prefix sums over the segments of a long table: the scale of the antiderivative terms, the L1 norm of the table and the Gauss-sum slack"""
+    def __init__(self, xs, ys):
+        n = len(xs) - 1; ps = [0.0] * (n + 1); pl = [0.0] * (n + 1); pg = [0.0] * (n + 1)
+        for j in range(n):
+            h = xs[j + 1] - xs[j]; dy = abs(ys[j + 1] - ys[j]); ym = max(abs(ys[j]), abs(ys[j + 1])); xm = max(abs(xs[j]), abs(xs[j + 1]))
+            ps[j + 1] = ps[j] + 4 * (5.5 * dy * h + 1.0101 * ym * xm)      # the piece itself and its left neighbour, as in int_scale; 1 % zone included
+            pl[j + 1] = pl[j] + ym * h
+            pg[j + 1] = pg[j] + h * 4 * (64 * EPS * (17 * dy + ym))
+        self.xs, self.n, self.ps, self.pl, self.pg = xs, n, ps, pl, pg
+    def span(self, a, b):
+        lo, hi = min(a, b), max(a, b)
+        ja, jb = locate_ref(self.xs, lo), locate_ref(self.xs, hi)
+        if ja is None: ja = 0
+        if jb is None: jb = self.n - 1
+        return max(0, ja - 1), min(self.n, jb + 2)
+    def iscale(self, c, a, b):
+        """as int_scale, plus the growth of the running sum over many pieces: (number of pieces) * (L1 norm of the span) / 32, i.e. 2 eps per addition
+        relative to the largest partial sum once multiplied by the 64 eps of the integral slack"""
+        j0, j1 = self.span(a, b)
+        return abs(c) * ((self.ps[j1] - self.ps[j0]) + (j1 - j0) * (self.pl[j1] - self.pl[j0]) / 32.0)
+    def gslack(self, c, a, b):
+        j0, j1 = self.span(a, b)
+        return abs(c) * ((self.pg[j1] - self.pg[j0]) + (j1 - j0) * 4 * EPS * (self.pl[j1] - self.pl[j0])) + 1e-300
+
+
+def _parse_case(line):
     r = Rd(line); op = r.word(); d = {"op": op}
-    d["two_d"] = op in ("t2", "h2", "d2", "z2"); d["malformed"] = False
+    d["two_d"] = op in ("t2", "h2", "d2", "z2", "s2", "r2"); d["malformed"] = False
+    if op in ("s1", "r1", "s2", "r2"):
+        d["session"] = True; tabs = []
+        for _t in range(r.integer()):
+            t = {"two_d": d["two_d"], "malformed": False}
+            if d["two_d"]:
+                t["op"] = "t2"; t["xd"], t["yd"], t["fd"] = r.num(), r.num(), r.num(); t["xs0"], t["ys0"] = r.list(), r.list(); t["f0"] = r.table()
+            else:
+                kind = r.word(); t["xd"], t["fd"] = r.num(), r.num()
+                if kind == "L":
+                    t["op"] = "t1"; t["xs0"], t["ys0"] = r.list(), r.list()
+                else:
+                    t["op"] = "d1"; rows = r.table(); t["malformed"] = not all(len(x) == 2 for x in rows)
+                    t["xs0"] = [x[0] for x in rows if len(x) == 2]; t["ys0"] = [x[1] for x in rows if len(x) == 2]
+            tabs.append(t)
+        d["tables"] = tabs; d["nslots"] = r.integer(); d["ops"] = read_ops(r, r.integer(), d["two_d"])
+        d["units"] = session_units(d)
+        return d
+    if op in ("b1", "k1"):
+        d["xd"], d["fd"] = r.num(), r.num(); d["rule"] = tuple(r.integer() for _k in range(9))
+        d["xs0"], d["ys0"] = rule_table(*d["rule"]); d["long"] = True
+        d["aux"] = LongAux(scaled(d["xd"], d["xs0"]), scaled(d["fd"], d["ys0"]))
+        d["ops"] = read_ops(r, r.integer(), False)
+        return d
     if op in ("t1", "h1"):
         d["xd"], d["fd"] = r.num(), r.num(); d["xs0"], d["ys0"] = r.list(), r.list()
     elif op in ("d1", "e1"):
@@ -387,19 +660,34 @@ def parse_case(line):
         d["f0"] = [[rows[i * len(ys0) + j][2] for j in range(len(ys0))] for i in range(len(xs0))] if ok else []
     else:   # z2
         d["xd"] = d["yd"] = d["fd"] = -1.0; d["xs0"] = [-1.0, 0.0, 1.0]; d["ys0"] = [-1.0, 0.0, 1.0]; d["f0"] = [[0.0] * 3 for _ in range(3)]
-    ops = []
-    for _ in range(r.integer()):
-        q = r.word()
-        if q in ("P", "X"): ops.append((q, r.num()))
-        elif q == "I": ops.append((q, r.num()) if not d["two_d"] else (q, r.num(), r.num()))
-        elif q == "D": ops.append((q, r.integer(), r.num()))
-        elif q in ("N", "m", "M", "Q", "B"): ops.append((q, r.num(), r.num()))
-        elif q in ("g", "G"): ops.append((q,))
-        elif q == "E": ops.append((q, r.num(), r.num(), r.integer()))
-        elif q == "Z": ops.append((q, r.integer()))
-        elif q in ("A", "U"): ops.append((q, r.num(), r.num(), r.num()))
-    d["ops"] = ops
+    d["ops"] = read_ops(r, r.integer(), d["two_d"])
     return d
+
+
+def session_units(d):
+    """replays the constructions, copies, moves, swaps and destructions by value: the session is a sequence of (table, prefactor history, queries)
+    units, one for every uninterrupted run of operations addressed to one slot; a unit is a case of its own for the predicates"""
+    st = [None] * d["nslots"]; cur = 0; units = []; open_u = None
+    for q in d["ops"]:
+        w = q[0]
+        if w in LIFE:
+            open_u = None
+            if w == "at": cur = q[1]
+            elif w in ("mk", "mn"): st[q[1]] = (q[2], 1.0)
+            elif w in ("cp", "cc", "val", "vec"): st[q[1]] = st[q[2]]
+            elif w == "mv": st[q[1]] = st[q[2]]; st[q[2]] = None
+            elif w == "rm": st[q[1]] = None
+            elif w == "sw": st[q[1]], st[q[2]] = st[q[2]], st[q[1]]
+            continue
+        if st[cur] is None: raise ValueError("query on a slot without a table")
+        t, c = st[cur]
+        if open_u is None:
+            open_u = dict(d["tables"][t]); open_u["ops"] = [("P", c)]; open_u["ctx"] = f"[program with several objects: slot {cur} holds table {t} (prefactor {c!r} before these operations)] "
+            units.append(open_u)
+        open_u["ops"].append(q)
+        if w == "P": st[cur] = (t, q[1])
+        elif w == "X": st[cur] = (t, c * q[1])
+    return units
 
 
 def pieces(xs, a, b):
@@ -415,7 +703,7 @@ def nout(q, xs=None, two_d=False):
     if o == "E": return q[3] + 3
     if o == "Z": return 2 + ((q[1] + 1) ** 2 + 1 if two_d else q[1] + 3)
     if o == "Q": return 2 + 3 * len(pieces(xs, q[1], q[2]))
-    if o in ("A", "B"): return 3
+    if o in ("A", "B", "W"): return 3
     if o == "U": return 4
 
 
@@ -423,13 +711,14 @@ def query_points(q):
     o = q[0]
     if o == "I": return [q[1]]
     if o == "D": return [q[2]]
-    if o in ("N", "m", "M", "Q", "B", "E"): return [q[1], q[2]]
+    if o in ("N", "m", "M", "Q", "B", "E", "W"): return [q[1], q[2]]
     if o == "A": return [q[1], q[2], q[3]]
     if o == "U": return [q[1], q[2] + q[3], q[2] - q[3], q[2]]
     return []
 
 
 def expected_exit(d):
+    if d.get("session"): return any(expected_exit(u) for u in d["units"])
     if d["malformed"]: return True
     if d["two_d"]:
         if len(d["f0"]) != len(d["xs0"]) or any(len(r) != len(d["ys0"]) for r in d["f0"]): return True
@@ -465,6 +754,10 @@ def int_scale(xs, ys, h, c, a, b):
 
 def walk(d):
     """replays the prefactor history; yields (op, c, n_outputs, natural scales of the outputs)"""
+    if d.get("session"):
+        for u in d["units"]:
+            for y in walk(u): yield y
+        return
     if d["two_d"]:
         f = [scaled(d["fd"], row) for row in d["f0"]]; mx = max([abs(v) for row in f for v in row] + [0.0]); c = 1.0
         for q in d["ops"]:
@@ -473,6 +766,7 @@ def walk(d):
             n = nout(q, None, True); yield q, c, n, [abs(c) * mx] * n
         return
     xs, ys = scaled(d["xd"], d["xs0"]), scaled(d["fd"], d["ys0"]); h, s = steffen_ref(xs, ys); c = 1.0
+    isc = d["aux"].iscale if d.get("long") else (lambda cc, a, b: int_scale(xs, ys, h, cc, a, b))
     def vs(x):
         j = locate_ref(xs, x)
         return 0.0 if j is None else abs(c) * abs(ys[j]) + abs(c) * abs(ys[j + 1]) + abs(c) * abs(ys[j + 1] - ys[j])
@@ -490,7 +784,7 @@ def walk(d):
         elif o == "D":
             j = locate_ref(xs, q[2]); k = q[1]
             sc = [0.0] if j is None or k > 3 else [abs(c) * [abs(ys[j]) + abs(ys[j + 1]), 40 * abs(s[j]), 54 * abs(s[j]) / h[j], 36 * abs(s[j]) / h[j] ** 2][k]]
-        elif o == "N": sc = [int_scale(xs, ys, h, c, q[1], q[2])]
+        elif o == "N": sc = [isc(c, q[1], q[2])]
         elif o in ("m", "M"): sc = [rs(q[1], q[2])]
         elif o in ("g", "G"): sc = [abs(c) * max(abs(y) for y in ys)]
         elif o == "E":
@@ -500,13 +794,14 @@ def walk(d):
             a, b, m = xs[0], xs[-1], q[1]
             sc = [abs(c) * max(abs(y) for y in ys)] * 2 + [vs(b if k == m else a + (b - a) * float(k) / float(m)) for k in range(m + 1)] + [vs(xs[0]), vs(xs[-1])]
         elif o == "Q":
-            sc = [int_scale(xs, ys, h, c, q[1], q[2])] * 2
+            sc = [isc(c, q[1], q[2])] * 2
             for (u, v) in pieces(xs, q[1], q[2]): sc += [vs(u + (v - u) * 0.5)] * 3
-        elif o == "A": sc = [int_scale(xs, ys, h, c, q[1], q[2]), int_scale(xs, ys, h, c, q[2], q[3]), int_scale(xs, ys, h, c, q[1], q[3])]
-        elif o == "B": sc = [int_scale(xs, ys, h, c, q[1], q[2]), rs(q[1], q[2]), rs(q[1], q[2])]
+        elif o == "W": sc = [isc(c, q[1], q[2])] * 3
+        elif o == "A": sc = [isc(c, q[1], q[2]), isc(c, q[2], q[3]), isc(c, q[1], q[3])]
+        elif o == "B": sc = [isc(c, q[1], q[2]), rs(q[1], q[2]), rs(q[1], q[2])]
         elif o == "U":
             j = locate_ref(xs, q[2])
-            sc = [int_scale(xs, ys, h, c, q[1], q[2] + q[3]), int_scale(xs, ys, h, c, q[1], q[2] - q[3]), vs(q[2]), 0.0 if j is None else abs(c) * 54 * abs(s[j]) / h[j]]
+            sc = [isc(c, q[1], q[2] + q[3]), isc(c, q[1], q[2] - q[3]), vs(q[2]), 0.0 if j is None else abs(c) * 54 * abs(s[j]) / h[j]]
         yield q, c, n, sc
 
 
@@ -547,7 +842,8 @@ def pred_1d(c, d, vals):
     def vslack(x, cc):
         j = locate_ref(xs, x)
         return math.inf if j is None else abs(cc) * seg_slack(ys, j) + 1e-300
-    def islack(cc, a, b): return 64 * EPS * int_scale(xs, ys, h, cc, a, b) + 1e-300
+    isc = d["aux"].iscale if d.get("long") else (lambda cc, a, b: int_scale(xs, ys, h, cc, a, b))
+    def islack(cc, a, b): return 64 * EPS * isc(cc, a, b) + 1e-300
     def in_dom(x): return xs[0] <= x <= xs[-1]
     k = 0
     for q, cc, n, sc in walk(d):
@@ -599,6 +895,12 @@ def pred_1d(c, d, vals):
             if a > b: ref = -ref
             sl = islack(cc, a, b) + err
             if not (abs(i12 - ref) <= sl): out.append(("Q:integral", f"Integrate({a!r},{b!r}) = {i12!r} under prefactor {cc!r}; Gauss quadrature of Interpolate on the pieces between knots gives {ref!r} (off by {abs(i12-ref):.3g}, allowed {sl:.3g})"))
+        elif op == "W":
+            a, b = q[1], q[2]; i12, i21, gs = o
+            if i21 != -i12: out.append(("W:antisymmetric", f"Integrate({b!r},{a!r}) = {i21!r} is not the negative of Integrate({a!r},{b!r}) = {i12!r}"))
+            ref = -gs if a > b else gs
+            sl = islack(cc, a, b) + d["aux"].gslack(cc, a, b)
+            if not (abs(i12 - ref) <= sl): out.append(("W:integral", f"Integrate({a!r},{b!r}) = {i12!r} under prefactor {cc!r} on a table of {N} points; Gauss quadrature of Interpolate summed over the pieces between knots gives {ref!r} (off by {abs(i12-ref):.3g}, allowed {sl:.3g})"))
         elif op == "A":
             a, b, e = q[1], q[2], q[3]; sl = islack(cc, a, b) + islack(cc, b, e) + islack(cc, a, e)
             if not (abs(o[0] + o[1] - o[2]) <= sl): out.append(("A:additive", f"Integrate({a!r},{b!r}) + Integrate({b!r},{e!r}) = {o[0] + o[1]!r} but Integrate({a!r},{e!r}) = {o[2]!r} (allowed {sl:.3g})"))
@@ -646,6 +948,13 @@ def predicates(c, io):
         return [] if ee else [(d["op"] + ":exit", "a valid table with limits inside the domain (or its 1 % tolerance) in the right order terminated the process")]
     if ee: return [(d["op"] + ":no-exit", "a malformed table, limits outside the 1 % tolerance or reversed extremum limits were accepted")]
     vals = [C01_tok(t) if not is_int_tok(t) else int(t) for t in io.split()]
+    if d.get("session"):
+        out = []; k = 0
+        for u in d["units"]:
+            n = sum(nn for _q, _c, nn, _s in walk(u))
+            out += [(sig, u["ctx"] + msg) for sig, msg in (pred_2d if u["two_d"] else pred_1d)(c, u, vals[k:k + n])]; k += n
+        if k != len(vals): out.append((d["op"] + ":shape", f"{len(vals)} output values for {k} expected"))
+        return out
     return pred_2d(c, d, vals) if d["two_d"] else pred_1d(c, d, vals)
 
 
@@ -653,7 +962,18 @@ def nontrivial(c, io):
     if io.startswith(("EXIT", "CRASH")): return False
     d = parse_case(c.line)
     if d["two_d"]: return any(cc < 0 and q[0] not in ("P", "X") for q, cc, n, sc in walk(d))
-    xs, ys = scaled(d["xd"], d["xs0"]), scaled(d["fd"], d["ys0"]); vals = io.split(); k = 0
+    if d.get("session"):
+        vals = io.split(); k = 0
+        for u in d["units"]:
+            n = sum(nn for _q, _c, nn, _s in walk(u))
+            if nontrivial_1d(u, vals[k:k + n]): return True
+            k += n
+        return False
+    return nontrivial_1d(d, io.split())
+
+
+def nontrivial_1d(d, vals):
+    xs, ys = scaled(d["xd"], d["xs0"]), scaled(d["fd"], d["ys0"]); k = 0
     for q, cc, n, sc in walk(d):
         o = vals[k:k + n]; k += n
         if cc < 0 and q[0] not in ("P", "X"): return True
